@@ -74,7 +74,7 @@ class Scheduler {
     std::lock_guard<std::mutex> g(mu);
     threads.clear();
     steps.clear();
-    locked.clear();
+    // 'locked' is NOT cleared: mutex objects may outlive a pass; their lifetime is tracked by INIT/DESTROY events
     deadlock = script_mismatch = bad_unlock = false;
     aborted = false;
     error.clear();
@@ -98,6 +98,16 @@ class Scheduler {
   // called from votca_verif_event
   void event(int kind, const void *obj, long arg) {
     std::unique_lock<std::mutex> g(mu);
+    // construction / destruction of a mutex keep the model exact across passes on one application object
+    // (they are not yield points and are tracked even while the scheduler is not stepping threads)
+    if (kind == VV_MUTEX_INIT) {
+      locked[obj] = false;
+      return;
+    }
+    if (kind == VV_MUTEX_DESTROY) {
+      locked.erase(obj);
+      return;
+    }
     if (!active) return;
     int me = self();
     if (kind == VV_THREAD_BEGIN && me < 0) {
